@@ -235,3 +235,7 @@ pub fn json_classify_sse2(chunk: &[u8; 16]) -> [u32; 6] {
 
 /// C04: balanced-parentheses byte tables, word kernels, SSE4.1 index builders and index views.
 pub use crate::trees::verif_bp;
+
+/// C15: the streaming YAML emitter's private quoting decisions (`yaml/light.rs`).
+#[cfg(feature = "std")]
+pub use crate::yaml::light_verif_emit_hooks as yaml_emit;
